@@ -857,6 +857,17 @@ func dominatesInstr(a, b ssa.Instruction) bool {
 	return a.Block().Dominates(b.Block())
 }
 
+// instrReaches: some execution path runs a and later b (same function).
+func instrReaches(a, b ssa.Instruction) bool {
+	if a.Block() == nil || b.Block() == nil {
+		return true
+	}
+	if a.Block() == b.Block() && instrIndex(a) < instrIndex(b) {
+		return true
+	}
+	return BlocksReachableFrom(a.Block())[b.Block()]
+}
+
 func pathCovers(k, q []string) bool { // k is a (wildcard-free) prefix of q
 	if len(k) > len(q) {
 		return false
@@ -879,6 +890,9 @@ func (tb *TB) liveStores(a *ssa.Alloc, ci *cellInfo, q []string) []storeRec {
 	var out []storeRec
 	for i, s := range ci.stores {
 		killed := false
+		if s.in != nil && s.in.Parent() == L.Parent() && !instrReaches(s.in, L) {
+			continue // the store cannot execute before the load on any path
+		}
 		for j, k := range ci.stores {
 			if i == j || k.val == nil || k.ext != "" {
 				continue
@@ -1103,4 +1117,183 @@ func (tb *TB) Expand(t *Term, depth int) *Term {
 		t = res[idx]
 	}
 	return t
+}
+
+// ---- normalisation modulo helper extraction ------------------------------------------------------
+
+// GatedResults evaluates a loop-free function's results as a decision tree over its branch
+// conditions: ite(cond, results on the true edge, results on the false edge).
+func (tb *TB) GatedResults(fn *ssa.Function, params, free []*Term) []*Term {
+	if fn == nil || fn.Blocks == nil || HasLoop(fn) || len(fn.Blocks) > 40 {
+		return nil
+	}
+	var e *Env
+	if params != nil || free != nil {
+		e = &Env{Fn: fn, Params: params, Free: free}
+	}
+	n := fn.Signature.Results().Len()
+	budget := 400
+	var rec func(b *ssa.BasicBlock) []*Term
+	rec = func(b *ssa.BasicBlock) []*Term {
+		budget--
+		if budget < 0 {
+			return nil
+		}
+		switch t := b.Instrs[len(b.Instrs)-1].(type) {
+		case *ssa.Return:
+			out := make([]*Term, n)
+			for i, r := range t.Results {
+				out[i] = tb.Val(r, e)
+			}
+			return out
+		case *ssa.Jump:
+			return rec(b.Succs[0])
+		case *ssa.If:
+			c := tb.Val(t.Cond, e)
+			a, bb := rec(b.Succs[0]), rec(b.Succs[1])
+			if a == nil || bb == nil {
+				return nil
+			}
+			out := make([]*Term, n)
+			for i := range out {
+				out[i] = normIte(c, a[i], bb[i])
+			}
+			return out
+		}
+		return nil // panic exit etc.
+	}
+	return rec(fn.Blocks[0])
+}
+
+// inlinable: a small loop-free module helper that rules do not anchor on.
+func (tb *TB) inlinable(f *ssa.Function, keep func(name string) bool) bool {
+	if f == nil || f.Blocks == nil || !tb.W.InModule(f) || HasLoop(f) {
+		return false
+	}
+	n := 0
+	for _, b := range f.Blocks {
+		n += len(b.Instrs)
+	}
+	if n > 80 {
+		return false
+	}
+	name := QualName(f)
+	if keep != nil && keep(name) {
+		return false
+	}
+	return true
+}
+
+// Norm rewrites a term modulo helper extraction: every call of a small loop-free module function that
+// `keep` does not protect is replaced by the function's gated result with the arguments substituted
+// (repeatedly, bounded). Exported functions and functions that finalise an HMAC are protected by default.
+func (tb *TB) Norm(t *Term, keepNames ...string) *Term {
+	keep := func(name string) bool {
+		for _, k := range keepNames {
+			if strings.Contains(name, k) {
+				return true
+			}
+		}
+		return false
+	}
+	return tb.norm(t, keep, 0)
+}
+
+func (tb *TB) defaultKeep(f *ssa.Function) bool {
+	if o := f.Object(); o != nil && o.Exported() {
+		// identity accessors (e.g. Digits.Int) are transparent even when exported
+		r := tb.GatedResults(f, nil, nil)
+		if len(r) == 1 && len(f.Params) >= 1 && r[0].String() == fmt.Sprintf("param(%s#0)", FuncName(f)) {
+			return false
+		}
+		return true
+	}
+	if len(sumCallsIn(f)) > 0 {
+		return true
+	}
+	return false
+}
+
+func (tb *TB) norm(t *Term, keep func(string) bool, depth int) *Term {
+	if t == nil || depth > 6 {
+		return t
+	}
+	// rebuild children first
+	var args []*Term
+	changed := false
+	for _, a := range t.Args {
+		na := tb.norm(a, keep, depth)
+		if na != a {
+			changed = true
+		}
+		args = append(args, na)
+	}
+	cur := t
+	if changed {
+		cur = tb.rebuild(t, args)
+	}
+	// inline at this node
+	idx := -1
+	ct := cur
+	if cur.Op == "extract" && len(cur.Args) == 1 && cur.Args[0].Op == "call" {
+		fmt.Sscanf(cur.Sym, "%d", &idx)
+		ct = cur.Args[0]
+	}
+	if ct.Op == "call" {
+		if c, ok := ct.Val.(*ssa.Call); ok {
+			f := c.Call.StaticCallee()
+			if f != nil && tb.inlinable(f, keep) && !tb.defaultKeep(f) {
+				res := tb.GatedResults(f, ct.Args, nil)
+				if res != nil {
+					if idx >= 0 && idx < len(res) {
+						return tb.norm(res[idx], keep, depth+1)
+					}
+					if idx < 0 && len(res) == 1 {
+						return tb.norm(res[0], keep, depth+1)
+					}
+				}
+			}
+		}
+	}
+	return cur
+}
+
+// rebuild re-applies a term constructor to new arguments (so that field/index/deref distribute again).
+func (tb *TB) rebuild(t *Term, args []*Term) *Term {
+	switch t.Op {
+	case "field":
+		return tb.fieldOf(args[0], t.Sym, nil)
+	case "index":
+		return tb.indexOf(args[0], args[1], nil)
+	case "deref":
+		return tb.derefOf(args[0], nil)
+	case "ite":
+		return normIte(args[0], args[1], args[2])
+	case "phi":
+		return mkPhi(args)
+	case "len":
+		return lenOf(args[0])
+	case "bin":
+		switch t.Sym {
+		case "+", "*", "&", "|", "^", "==", "!=":
+			isStr := false
+			if t.Typ != nil {
+				if b, ok := t.Typ.Underlying().(*types.Basic); ok && b.Info()&types.IsString != 0 {
+					isStr = true
+				}
+			}
+			if !(isStr && t.Sym == "+") && len(args) == 2 && args[0].String() > args[1].String() {
+				args = []*Term{args[1], args[0]}
+			}
+		}
+	}
+	return &Term{Op: t.Op, Sym: t.Sym, Args: args, Val: t.Val, Typ: t.Typ, Env: t.Env}
+}
+
+// EqNorm: the term equals want modulo helper extraction (calls named in want are never inlined).
+func (tb *TB) EqNorm(t *Term, want string, keepNames ...string) bool {
+	if t.String() == want {
+		return true
+	}
+	return tb.Norm(t, keepNames...).String() == want
 }
